@@ -24,6 +24,8 @@ def H(prop, mod, name, tier="quick", mode="full", timeout=420, **kw):
     d = dict(prop=prop, name=name, path=f"{path}::{name}", file=os.path.join(VERIF, "kani", "harness", f),
              tier=tier, mode=mode, timeout=timeout)
     d.update(kw)
+    if "name_path" in d:
+        d["path"] = d.pop("name_path")
     HARNESSES.append(d)
 
 
@@ -166,6 +168,123 @@ PROPS["C13"] = dict(
 )
 H("C13", "mapper", "c13_mapper_kernel_nopanic", what="mapper iterate_with_lines never panics/overflows, unrestricted numbers", vars="all numbers 64-bit, frame line", bound="K=2",
   functions=["mapper::iterate_with_lines"], stubs=[])
+
+H("C13", "stacktrace", "c13_classifiers_3", timeout=600, what="parse_frame / parse_throwable never panic, parts are sub-slices; every valid-UTF-8 text of 3 bytes over the delimiter alphabet + a 2-byte character",
+  vars="3 bytes", bound="3 bytes", functions=["stacktrace::parse_frame", "stacktrace::parse_throwable"], stubs=["core::slice::memchr::{memchr,memrchr} -> byte loops"])
+H("C13", "stacktrace", "c13_classifiers_5", tier="thorough", timeout=1800, what="same, 5 bytes", vars="5 bytes", bound="5 bytes",
+  functions=["stacktrace::parse_frame", "stacktrace::parse_throwable"], stubs=["core::slice::memchr::{memchr,memrchr} -> byte loops"])
+H("C13", "stacktrace", "c13_frame_template_6", tier="thorough", timeout=2400, what="`at ` + 6 symbolic bytes + `)`: parse_frame never panics; a returned frame is exactly the pieces of the line",
+  vars="6 bytes", bound="10-byte lines of that shape", functions=["stacktrace::parse_frame"], stubs=["core::slice::memchr::{memchr,memrchr} -> byte loops"])
+
+# --------------------------------------------------------------------------- C06
+PROPS["C06"] = dict(
+    claim=("one step of the real record parser from any non-empty slice never panics, returns a strict suffix (=> termination and <=1 item per byte for inputs of "
+           "any length, by induction over ProguardRecordIter::next), yields no string containing a line terminator, and depends only on its first line "
+           "(the rest resumes right after that line)"),
+    outside=("slices longer than the stated sizes beyond their concrete prefix (the step is inductive in the *number* of lines, not in line length); "
+             "equality of Err items' `line` payload (carries the terminator)"),
+    assumptions=["std models (each proved equal to the real function by an s_* harness): core::str::from_utf8 -> table-driven validator; char::is_numeric -> exact Latin-1 table; memchr/memrchr -> byte loops"],
+)
+_c06 = dict(functions=["mapping::parse_proguard_record", "parse_proguard_header", "parse_proguard_field_or_method", "parse_proguard_class", "parse_usize", "parse_until*", "split_line", "consume_leading_newlines"],
+            stubs=["core::str::from_utf8 -> from_utf8_model", "char::is_numeric -> is_numeric_model", "memchr/memrchr -> byte loops"])
+H("C06", "mapping", "c06_step_any_3", timeout=900, what="step (a)(b)(c), every slice of 1..3 arbitrary bytes", vars="3 bytes (all 256 values), length", bound="<=3 bytes", **_c06)
+H("C06", "mapping", "c06_step_header_4", timeout=900, what="step, `#` + up to 4 arbitrary bytes", vars="4 bytes, length", bound="<=5 bytes", **_c06)
+H("C06", "mapping", "c06_step_sourcefile_3", timeout=900, what="step, sourceFile JSON prefix + up to 3 arbitrary bytes (unterminated value, terminators inside)", vars="3 bytes, length", bound="33+3 bytes", **_c06)
+H("C06", "mapping", "c06_locality_any_4", timeout=900, what="locality (d), every 4-byte slice", vars="4 bytes", bound="4 bytes", **_c06)
+H("C06", "mapping", "c06_step_any_4", tier="thorough", timeout=2400, what="step, 1..4 arbitrary bytes", vars="4 bytes, length", bound="<=4 bytes", **_c06)
+H("C06", "mapping", "c06_step_any_5", tier="thorough", timeout=3000, what="step, 1..5 arbitrary bytes", vars="5 bytes, length", bound="<=5 bytes", **_c06)
+H("C06", "mapping", "c06_step_member_4", tier="thorough", timeout=2400, what="step, four-space indent + up to 4 arbitrary bytes", vars="4 bytes, length", bound="<=8 bytes", **_c06)
+H("C06", "mapping", "c06_step_member_6", tier="thorough", timeout=3000, what="step, four-space indent + up to 6 arbitrary bytes", vars="6 bytes, length", bound="<=10 bytes", **_c06)
+H("C06", "mapping", "c06_step_header_6", tier="thorough", timeout=2400, what="step, `# ` + up to 6 arbitrary bytes", vars="6 bytes, length", bound="<=8 bytes", **_c06)
+H("C06", "mapping", "c06_step_sourcefile_5", tier="thorough", timeout=2400, what="step, sourceFile prefix + up to 5 arbitrary bytes", vars="5 bytes, length", bound="33+5 bytes", **_c06)
+H("C06", "mapping", "c06_locality_any_5", tier="thorough", timeout=3000, what="locality, every 5-byte slice", vars="5 bytes", bound="5 bytes", **_c06)
+H("C06", "mapping", "c06_locality_header_4", tier="thorough", timeout=2400, what="locality, `#` + 4 bytes", vars="4 bytes", bound="5 bytes", **_c06)
+H("C06", "mapping", "c06_locality_sourcefile_4", tier="thorough", timeout=2400, what="locality, sourceFile prefix + 4 bytes", vars="4 bytes", bound="37 bytes", **_c06)
+H("C06", "mapping", "s_is_numeric_latin1", tier="thorough", timeout=600, what="model validation: is_numeric_model == char::is_numeric on all 256 Latin-1 code points", vars="1 byte", bound="exhaustive over u8",
+  functions=["char::is_numeric"], stubs=[])
+
+# --------------------------------------------------------------------------- C12
+PROPS["C12"] = dict(
+    claim=("no panic, arithmetic overflow or out-of-bounds access (Kani's default checks on) in the cache reader's kernels for arbitrary field values: both frame iterators with every "
+           "numeric field and frame line arbitrary and string offsets valid / sentinel / out of bounds / mid-string; member-range slicing with arbitrary offset and length; "
+           "range search with an arbitrary (inconsistent) comparison order; every returned string is a slice of the string section or of the query; parse itself is C11"),
+    outside="whole query paths on a symbolic multi-class image (get_class binary search over symbolic strings); string sections other than the fixed 61-byte one; text-trace and signature queries",
+    assumptions=["watto::StringTable::read -> exact model (LEB128 + UTF-8), validated by s_strtab_read_*"],
+)
+_c12 = dict(functions=["cache::iterate_with_lines", "cache::iterate_without_lines", "ProguardCache::read_string", "cache::extract_class_name"], stubs=["watto::StringTable::read -> strtab_read_model"],
+            vars="startline, endline, original_startline, original_endline (all u32), frame line (usize)", bound="1 entry, fixed string section")
+for _n in ["plain", "foreign_synth", "bad_class", "bad_file", "bad_name", "params_bad_class", "params_bad_name"]:
+    H("C12", "cache_mod", "c12_kernel_" + _n, timeout=900, what="frame kernel, arbitrary numbers, string-offset shape " + _n, **_c12)
+H("C12", "cache_mod", "c12_class_member_ranges", what="get_class_members(_by_params) with arbitrary offset/len: in-bounds sub-slice or None", vars="4 u32 fields, section length <=3", bound="<=3 members",
+  functions=["ProguardCache::get_class_members", "ProguardCache::get_class_members_by_params"], stubs=[])
+H("C12", "cache_mod", "c12_find_range_arbitrary_order", what="find_range_by_binary_search with an arbitrary comparison table: no panic, result inside the slice", vars="4 table bytes, length", bound="<=4 members",
+  functions=["ProguardCache::find_range_by_binary_search"], stubs=[])
+
+# --------------------------------------------------------------------------- C16
+PROPS["C16"] = dict(
+    claim=("descriptor tokenizer: for every `(`+k characters over {I J [ L ; a / ) V (}: a valid JVM method descriptor is accepted with exactly one type per parameter (count) and the "
+           "return type as the right sub-slice; strings without a parenthesised list, without a return type or with an unterminated object type yield None; never a panic (default checks on)"),
+    outside=("token boundaries (only their count and the return slice are compared: reading back a Vec pushed under symbolic guards costs CBMC >200 s of array post-processing for 2 symbolic characters); "
+             "type rendering / class remapping / format_signature (String, format!, str::replace) and the mapper-vs-cache comparison of the two rendering copies; non-ASCII names; more than 5 characters"),
+    assumptions=["memchr/memrchr -> byte loops"],
+)
+_c16 = dict(functions=["java::parse_obfuscated_bytecode_signature", "java::java_base_types"], stubs=["core::slice::memchr::{memchr,memrchr} -> byte loops"], mode="full")
+H("C16", "java", "c16_tokenizer_len3", timeout=900, what="all `(`+2 characters", vars="2 characters", bound="3-character strings", **_c16)
+H("C16", "java", "c16_tokenizer_len4", timeout=900, what="all `(`+3 characters", vars="3 characters", bound="4-character strings", **_c16)
+H("C16", "java", "c16_tokenizer_len5", timeout=1200, what="all `(`+4 characters", vars="4 characters", bound="5-character strings", **_c16)
+H("C16", "java", "c16_tokenizer_len6", tier="thorough", timeout=3600, what="all `(`+5 characters", vars="5 characters", bound="6-character strings", **_c16)
+
+# --------------------------------------------------------------------------- C19
+PROPS["C19"] = dict(
+    claim=("has_line_info, summary (class/method counts, last compiler / compiler_version / min_api header) and is_valid equal reference folds over the complete record stream, "
+           "for every stream of items whose *kind* (error line, header key/value, class, field, method with/without line mapping) is symbolic at every position"),
+    outside="streams longer than 8 items for has_line_info/summary (the loops carry no state but their accumulators; not proved beyond 8); header values outside {none, R8, 15, x}; the text->record step (C05/C06)",
+    assumptions=["record injection: ProguardMapping::iter() yields the harness's items (kani::stub of mapping::parse_proguard_record)"],
+)
+_c19 = dict(functions=["ProguardMapping::has_line_info", "ProguardMapping::summary", "MappingSummary::new", "ProguardRecordIter::next"], stubs=["mapping::parse_proguard_record -> inject::parse_stub"], mode="full")
+H("C19", "mapping", "c19_folds_3", timeout=600, what="folds == reference, 3 items", vars="kinds/keys/values of 3 items", bound="3 items", **_c19)
+H("C19", "mapping", "c19_folds_5", timeout=900, what="folds == reference, 5 items", vars="kinds/keys/values of 5 items", bound="5 items", **_c19)
+H("C19", "mapping", "c19_folds_8", tier="thorough", timeout=2400, what="folds == reference, 8 items", vars="kinds/keys/values of 8 items", bound="8 items", **_c19)
+H("C19", "mapping", "c19_is_valid_window", timeout=1200, what="is_valid == 50-item window rule, 52 items of symbolic kind", vars="52 kinds", bound="52 items",
+  functions=["ProguardMapping::is_valid", "ProguardRecordIter::next"], stubs=["mapping::parse_proguard_record -> inject::parse_stub"], mode="full")
+
+# --------------------------------------------------------------------------- C10
+PROPS["C10"] = dict(
+    claim=("reader half: the pinned 5.5.0 reader (verbatim copy, kani/pinned) and the current reader give the same verdict on every buffer (same error kind incl. WrongVersion, or the same "
+           "section split), the same frame for every member entry a version-1 writer can produce (by line and by parameters, every frame line < 2^63) and the same member-range / range-search results; "
+           "so a change of layout, sentinel or line rule in the reader without a version bump is refuted"),
+    outside=("the writer half (current writer -> pinned reader) except through the C09 writer harnesses; class-name binary search over symbolic string sections; frame lines >= 2^63 and entries outside the "
+             "writer encoding, where the pinned reader overflows (defects fixed in the current tree)"),
+    assumptions=["documented version-1 encoding of entries (writer invariant), numbers < 2^32-1", "watto::StringTable::read -> exact model (both readers)"],
+)
+_c10 = dict(functions=["pinned cache::iterate_with_lines / iterate_without_lines / extract_class_name", "current cache::iterate_with_lines / iterate_without_lines"], stubs=["watto::StringTable::read -> strtab_read_model"],
+            vars="4 numbers (u32), frame line, frame file presence", bound="1 entry")
+for _sh in ["own_nofile", "own_file", "own_synth", "foreign_nofile", "foreign_file", "foreign_synth", "params_own", "params_foreign"]:
+    H("C10", "cache_mod", "c10_kernel_diff_" + _sh, what="pinned reader kernel == current reader kernel, shape " + _sh, **_c10)
+H("C10", "cache_mod", "c10_parse_diff_96", what="pinned parse == current parse on every buffer <=96 bytes", vars="96 bytes, length", bound="<=96 bytes",
+  functions=["pinned ProguardCache::parse", "ProguardCache::parse"], stubs=[])
+H("C10", "cache_mod", "c10_lookup_diff", what="member-range slicing and range search agree", vars="offsets/lengths, comparison table", bound="<=4 members",
+  functions=["find_range_by_binary_search (both)", "get_class_members(_by_params) (both)"], stubs=[])
+
+# --------------------------------------------------------------------------- C15
+PROPS["C15"] = dict(
+    claim=("the writer's padding step (write_padding + std write_all) under every sink schedule: success => exactly the padding bytes were accepted (zeros up to the next multiple of 8); "
+           "a non-retryable sink error => failure with only a prefix delivered; Interrupted is retried"),
+    outside="the payload writes of ProguardCache::write (plain write_all calls chained with `?`): see the writer pipeline harnesses; more than 12 sink calls",
+    assumptions=["sink obeys the io::Write contract: accepts 1..=len bytes per successful call"],
+)
+H("C15", "cache_raw", "c15_padding_unit", timeout=900, what="write_padding with symbolic section length and symbolic sink schedule (per-call acceptance, failing call, interrupted call)",
+  vars="section length (usize), 12 per-call limits, failing call index, interrupted call index", bound="<=12 sink calls",
+  functions=["cache::raw::write_padding", "std::io::Write::write_all"], stubs=[])
+
+# --------------------------------------------------------------------------- C18
+PROPS["C18"] = dict(
+    claim=("uuid() == new_v5(new_v5(NAMESPACE_DNS, b\"guardsquare.com\"), exactly the source slice): two hash computations, the second over the untouched source pointer and full length, its result returned"),
+    outside="SHA-1 / RFC 4122 arithmetic inside the uuid crate (uninterpreted here; its contract is trusted); sources longer than 16 bytes (the function is length-oblivious); cross-process stability",
+    assumptions=["uuid::Uuid::new_v5 -> uninterpreted recorder returning a fresh arbitrary value per call"],
+)
+H("C18", "mapping", "c18_uuid_wiring", features="uuid", timeout=600, what="uuid() wiring for every source of <=16 symbolic bytes", vars="16 bytes, length", bound="<=16 bytes",
+  functions=["ProguardMapping::uuid", "lazy_static NAMESPACE"], stubs=["uuid::Uuid::new_v5 -> recorder"], name_path="mapping::verif_harness::c18::c18_uuid_wiring")
 
 # --------------------------------------------------------------------------- not applicable / notes
 NOTES = ("All checks are driven by /verif/check; see DESIGN.md. Exit 2 = inconclusive (timeout, OOM, unwinding bound, "
